@@ -15,7 +15,7 @@ FILLS = {'f4': [-999.0, 1e20, -1.0], 'f8': [-999.0, 9.96921e36, -1e30],
          'i8': [-999, -9999999999], 'u1': [255, 0, 7]}
 
 
-def payload(seed, shape, dtype):
+def payload(seed, shape, dtype, imax=None):
     """distinct, non-zero values (as far as the dtype allows)"""
     n = int(np.prod(shape)) if len(shape) else 1
     rng = np.random.default_rng([int(seed), 77])
@@ -26,10 +26,12 @@ def payload(seed, shape, dtype):
         sign = np.where(rng.random(n) < 0.3, -1.0, 1.0)
         vals = (perm + 1) * scale * sign + 0.125
     elif dt.kind == 'u':
-        vals = (perm % 250) + 1
+        vals = (perm % (min(250, int(imax)) if imax else 250)) + 1
     else:
         info = np.iinfo(dt)
         hi = min(info.max, 30000)
+        if imax:
+            hi = min(hi, int(imax))
         sign = np.where(rng.random(n) < 0.3, -1, 1)
         vals = ((perm % hi) + 1) * sign
     return np.asarray(vals).astype(dt).reshape(shape)
@@ -160,7 +162,7 @@ def var_values(vs, dlen):
         rng = np.random.default_rng([int(vs['seed']), 80])
         letters = np.frombuffer(b'abcdefghijklmnopqrstuvwxyz', dtype='S1')
         return letters[rng.integers(0, 26, n)].reshape(shape)
-    data = payload(vs['seed'], shape, vs['dtype'])
+    data = payload(vs['seed'], shape, vs['dtype'], vs.get('imax'))
     if vs['mask'] != 'none':
         m = maskfor(vs['seed'], shape, vs['mask'])
         return np.ma.masked_array(data, mask=m, fill_value=vs['fill'])
